@@ -21,6 +21,22 @@ reg("C18", "exhaustive enumeration + rapidcheck (src/c18.cc)", "exploration",
     "Trusts the 25-line specification in src/c18.cc, clang ASan/UBSan, and that the five-letter alphabet covers the "
     "character classes the code distinguishes ('/', '.', other).", "DESIGN.md 4/C18")
 
+reg("C01", "Hypothesis -> gensquashfs (asan) -> independent parser + rdsquashfs read-back", "exploration",
+    "property-based round trip against a reference model (independent SquashFS parser) with directed boundary profiles",
+    "Generated trees x option sets x input modes are packed by the real gensquashfs (ASan/UBSan build of the current tree); the image "
+    "is parsed by an independent Python reader written from doc/format.adoc and compared field by field with the reference model "
+    "of gensquashfs.1 (paths, types, modes, owners, times, targets, device numbers, hard-link partition, xattrs, file bytes), then "
+    "read back through rdsquashfs (unpack+lstat walk, cat, stat, xattr, list, describe). Unrepresentable inputs must be refused. "
+    "Sampled, not exhaustive; boundaries named in the property are hit by directed profiles every run.",
+    "Trusts lib/sqfsimg.py (parser), lib/treemodel.py (reference model from the man page), Python zlib/lzma and libzstd/liblz4 "
+    "decompressors, the host file system (ext4, root) for materialising trees.", "DESIGN.md 4/C01")
+reg("C03", "Hypothesis -> gensquashfs/tar2sqfs (asan) -> independent validator", "exploration",
+    "validity predicate (named on-disk invariants) evaluated by an independent parser over generated images",
+    "Every image produced for generated inputs (C01-style trees incl. directory/metadata-block boundary profiles, short incompressible "
+    "data with every compressor, tar inputs) is parsed independently and checked against the named invariants S1-S4, M1, T1 (kernel "
+    "table layout checks), D1, I1-I5, R1-R4, X1, E1 of DESIGN.md. Any violated invariant is reported by name.",
+    "Trusts lib/sqfsimg.py and the invariant list (doc/format.adoc + Linux fs/squashfs table sanity checks).", "DESIGN.md 4/C03")
+
 NOT_YET = {}
 
 ALL = ["C%02d" % i for i in range(1, 20)]
